@@ -26,6 +26,7 @@ func init() {
 func C09(r *core.Run) {
 	panicScope(r, entriesC09...)
 	escapeAgreement(r)
+	tokenTextOpaque(r)
 	fragmentCoverage(r)
 	astFieldCoverage(r)
 }
@@ -632,6 +633,38 @@ func errorListDiscipline(r *core.Run) {
 	if n == 0 {
 		r.Fatal("R-POS/errs: no writes to Walker.errors / Lexer.Errors found (anchor moved?)")
 	}
+	// what is handed out is the accumulated list itself, never a merged or
+	// re-ordered copy: fail-fast reports the first entry of that list
+	m := 0
+	core.AllFuncDecls(pk, func(fd *ast.FuncDecl) {
+		ast.Inspect(fd.Body, func(nd ast.Node) bool {
+			switch x := nd.(type) {
+			case *ast.KeyValueExpr:
+				k, ok := x.Key.(*ast.Ident)
+				if !ok || k.Name != "Errors" || !strings.HasSuffix(core.TypeStr(info.TypeOf(x.Value)), "errpos.Errors") {
+					return true
+				}
+				m++
+				o := r.Add("R-POS/errs", fmt.Sprintf("parser.%s | File{Errors: %s}", core.FuncName(fd), core.ExprStr(x.Value)), x.Pos(), "diagnostic list handed to the caller")
+				if sel, ok := core.Unparen(x.Value).(*ast.SelectorExpr); ok && (sel.Sel.Name == "errors" || sel.Sel.Name == "Errors") {
+					o.Auto("the accumulated list itself")
+				} else {
+					o.Fail("the caller receives %s, not the list the walker accumulated in order of discovery: collect-all mode need not report the fail-fast diagnostic first", core.ExprStr(x.Value))
+				}
+			case *ast.CallExpr:
+				name := core.CalleeName(info, x)
+				if (strings.HasPrefix(name, "sort.") || strings.HasPrefix(name, "slices.Sort")) && len(x.Args) > 0 && strings.HasSuffix(core.TypeStr(info.TypeOf(x.Args[0])), "errpos.Errors") {
+					m++
+					o := r.Add("R-POS/errs", fmt.Sprintf("parser.%s | %s(%s)", core.FuncName(fd), name, core.ExprStr(x.Args[0])), x.Pos(), "re-ordering of diagnostics")
+					o.Fail("diagnostics are sorted: the first entry is no longer the first error met, which is what fail-fast mode reports")
+				}
+			}
+			return true
+		})
+	})
+	if m == 0 {
+		r.Fatal("R-POS/errs: no File{Errors: …} literal found in the parser (anchor moved?)")
+	}
 }
 
 // lexerPositions: token positions come only from getPosition.
@@ -782,4 +815,72 @@ func fmtDiffForms(r *core.Run) {
 		o.Fail("LSP lines are %v", lines)
 	}
 	r.Floor("R-CONST/fmtdiff", 5, "two fragment forms, two gap forms, LSP mapping")
+}
+
+// tokenTextOpaque (R-CONST/opaque): once a token has been rendered
+// (tokenSource / quoteString), its text may contain anything the lexer
+// accepts inside the delimiters — including line breaks inside strings — and
+// must reach the output unchanged. The functions that assemble output lines
+// from tokens may concatenate and indent, but not split, trim or replace.
+func tokenTextOpaque(r *core.Run) {
+	r.Rule("R-CONST/opaque", "a formatter function that assembles output from tokens (takes Token parameters or calls tokenSource) applies no text-rewriting function (strings.Split*, Replace*, Trim*, Fields, Map, ToLower/ToUpper, regexp) to the assembled text: rendered string and regex literals may span lines and contain any character")
+	pk := r.P.Pkg(parserRel)
+	if pk == nil {
+		return
+	}
+	info := pk.TypesInfo
+	rewriting := func(name string) bool {
+		if strings.HasPrefix(name, "regexp.") || strings.HasPrefix(name, "(*regexp.") {
+			return true
+		}
+		if !strings.HasPrefix(name, "strings.") {
+			return false
+		}
+		f := strings.TrimPrefix(name, "strings.")
+		return strings.HasPrefix(f, "Split") || strings.HasPrefix(f, "Replace") || strings.HasPrefix(f, "Trim") || f == "Fields" || f == "FieldsFunc" || f == "Map" || strings.HasPrefix(f, "To")
+	}
+	n := 0
+	core.AllFuncDecls(pk, func(fd *ast.FuncDecl) {
+		if !strings.HasSuffix(r.P.Fset.Position(fd.Pos()).Filename, "fmt.go") {
+			return
+		}
+		// token assembler?
+		assembles := false
+		if fd.Type.Params != nil {
+			for _, p := range fd.Type.Params.List {
+				ts := core.TypeStr(info.TypeOf(p.Type))
+				if strings.HasSuffix(ts, "parser.Token") {
+					assembles = true
+				}
+			}
+		}
+		ast.Inspect(fd.Body, func(nd ast.Node) bool {
+			if c, ok := nd.(*ast.CallExpr); ok && strings.HasSuffix(core.CalleeName(info, c), "parser.tokenSource") {
+				assembles = true
+			}
+			return true
+		})
+		if !assembles || fd.Name.Name == "tokenSource" || fd.Name.Name == "quoteString" {
+			return
+		}
+		n++
+		o := r.Add("R-CONST/opaque", "parser."+core.FuncName(fd)+" | rendered token text is only concatenated", fd.Pos(), "assembly of output text from tokens")
+		var bad []string
+		ast.Inspect(fd.Body, func(nd ast.Node) bool {
+			if c, ok := nd.(*ast.CallExpr); ok {
+				if name := core.CalleeName(info, c); rewriting(name) {
+					bad = append(bad, fmt.Sprintf("%s at %s", name, r.P.Rel(c.Pos())))
+				}
+			}
+			return true
+		})
+		if len(bad) == 0 {
+			o.Auto("no splitting, trimming or replacing of assembled text")
+		} else {
+			o.Fail("the assembled line is rewritten (%s): a string literal that contains an escaped line break or the rewritten characters changes its value when formatted", strings.Join(bad, ", "))
+		}
+	})
+	if n == 0 {
+		r.Fatal("R-CONST/opaque: no token-assembling function found in fmt.go (anchor moved?)")
+	}
 }
